@@ -531,7 +531,7 @@ func bindDeps(t *core.Table, cond core.TT, m matchers) (b *core.Binding, unbound
 			continue
 		}
 		for _, n := range sortedKeys(m) {
-			if m[n](a) {
+			if m[n](a) || m[n](core.StripVersion(a)) {
 				if b.Names[i] != "" || used[n] {
 					dup = n + " / " + a
 				}
